@@ -188,7 +188,7 @@ func init() {
 	register(&Scenario{
 		Prop:  "C16",
 		Level: "exploration",
-		Rule:  "Engine-W histories of accepted and refused updates over 1..4 logs (IDs from the repository's own origin-to-ID function, cross-checked against the harness's) on both stores; after every step GETs through the registered mux router (following its path-cleaning redirects) and through the bundled client/http.Witness over simnet, for known, unknown and syntactically odd IDs (empty, dots, slash, encoded slash, upper-case hex, ID plus suffix, ID minus a character, 4000 characters, ...), with injected transport faults on client lookups (drop, 5xx, truncation, stall), the log list after every step; in a second batch the reads race the updates under the seeded scheduler (a GET while an update is parked mid-transaction); non-trivial = a read hit a log with a stored checkpoint after at least one growth, or an odd ID; distinct = distinct (ID kind, path, state class, status or client result class, fault) tuples",
+		Rule:  "Engine-W histories of accepted and refused updates over 1..4 logs (IDs from the repository's own origin-to-ID function, cross-checked against the harness's) on both stores; after every step GETs through the registered mux router (following its path-cleaning redirects) and through the bundled client/http.Witness over simnet, for known, unknown and syntactically odd IDs (empty, dots, slash, encoded slash, upper-case hex, ID plus suffix, ID minus a character, 4000 characters, ...), with injected transport faults on client lookups (drop, 5xx, truncation, stall), the log list after every step; in a second batch the reads race the updates under the seeded scheduler (a GET while an update is parked mid-transaction); with a single client a request that is never answered (the scheduler finds no task able to proceed and hours of simulated time change nothing) is a violation; non-trivial = a read hit a log with a stored checkpoint after at least one growth, or an odd ID; distinct = distinct (ID kind, path, state class, status or client result class, fault) tuples",
 		Gen: func(r *Rng, tier string, n uint64) *Plan {
 			if n%9 == 8 {
 				// updates arriving through the add-checkpoint endpoint, the read API after each of them: without an accepted
@@ -254,8 +254,16 @@ func init() {
 				}
 				return out
 			}
-			res, out := baseOutcome(t, p, false)
+			// with one sequential client nothing but the service itself can keep a request from being answered: a request that is
+			// never answered (no task can proceed, hours of simulated time change nothing) is a GET that did not return the stored bytes
+			res, out := baseOutcome(t, p, p.Cfg.Clients <= 1)
 			if len(out.Infra) > 0 {
+				return out
+			}
+			if len(out.Viol) > 0 {
+				for i := range out.Viol {
+					out.Viol[i].Sig = "wedge/request_never_answered"
+				}
 				return out
 			}
 			out.Viol = append(out.Viol, oracleC16(res)...)
